@@ -477,6 +477,9 @@ def run(ctx):
     # random
     # ------------------------------------------------------------------------------------------------------------
     n_random = 1500 if quick else 8000
+    # source hints: the quotient dt/target_dt (and its reciprocal), the time step (and the sampling rate 1/dt) at / around every new float constant
+    hv_f = gen.hint_values(ctx, 0.02, 50.0, cap=20, maps=(lambda c: c, lambda c: 1 / c))
+    hv_dt = gen.hint_values(ctx, 1e-3, 1.0, cap=10, maps=(lambda c: c, lambda c: 1 / c))
     for i in range(n_random):
         if i % 3 == 0:
             kind = rng.choice(['dyadic', 'int', 'plateau', 'spike', 'step'])
@@ -488,6 +491,8 @@ def run(ctx):
         else:
             n = gen.log_int(rng, 2, 400 if quick else 3000)
             dt = gen.any_dt(rng)
+            if hv_dt and rng.random() < 0.1:
+                dt = rng.choice(hv_dt)
             kind, a = gen.any_record(rng, n, dt)
             u = rng.random()
             if u < 0.3:
@@ -496,6 +501,8 @@ def run(ctx):
                 target = dt * rng.choice([1, 2, 3, 5, 10, 0.5, 1 / 3, 0.2, 0.1, 7, 49])
             else:
                 target = dt * 10 ** rng.uniform(-1.3, 1.3)
+            if hv_f and rng.random() < 0.2:
+                target = rng.choice([dt / rng.choice(hv_f)] + [t for t in hv_dt if 0.02 <= dt / t <= 50])      # the quotient, or the target step itself, at the constant
         if i % 7 == 0:      # n just above 2*max(dt,target)/dt
             n = max(2, int(2 * max(dt, target) / dt) + rng.randint(1, 3))
             a = gen.int_record(rng, n) if kind in gen.DYADIC_KINDS else gen.noise_record(rng, n)
@@ -524,7 +531,8 @@ def run(ctx):
         bandlimited(N, dt, target, even)
     # LONG records of awkward (prime, non-smooth) and smooth lengths: the Fourier clause has no length limit
     for N, k_or_m, refine in ([(4999, 2, True), (8191, 2, True), (10010, 5, False)] if quick else
-                              [(4999, 2, True), (8191, 2, True), (10010, 5, False), (5003, 3, True), (16384, 2, True), (12007, 1, True), (9973 * 2, 2, False)]):
+                              [(4999, 2, True), (8191, 2, True), (10010, 5, False), (5003, 3, True), (16384, 2, True), (12007, 1, True), (9973 * 2, 2, False)]) + \
+            [(m, 2, True) for m in gen.hint_sizes(ctx, lo=121, hi=60000, cap=3)]:          # source hints: lengths around every new integer constant
         dt = rng.choice([0.01, 0.02])
         ctx.hist('band-limited: long record')
         bandlimited(N, dt, dt / k_or_m if refine else dt * k_or_m, (N * k_or_m) % 2 == 0 if refine else False)
@@ -721,6 +729,8 @@ def _x2_large(ctx, cur):
             ('decimate', rng.choice([10000, 32768, 60000]), rng.choice([2, 4, 8])), ('decimate', rng.choice([5001, 20000]), rng.choice([3, 5, 7]))]
     if not quick:
         jobs += [(b, n, k) for b in ('refine', 'decimate') for n in (4096, 4097, 65536, 100000) for k in (2, 3)]
+    # source hints: input lengths around every new integer constant, and refinements by 10 whose OUTPUT length lies just above it
+    jobs += [(b, m, 2) for m in gen.hint_sizes(ctx, lo=401, hi=300000, cap=4) for b in ('refine', 'decimate')] + [('refine', c // 10 + 1, 10) for c in gen.hint_sizes(ctx, lo=4001, hi=3000000, cap=2)]
     for branch, n, k in jobs:
         seed = rng.randrange(2 ** 31)
         g = np.random.default_rng(seed)
@@ -791,7 +801,8 @@ def _x2_large(ctx, cur):
         ctx.oracle('C14 (large) exact covariance: values x 2^k and both steps x 2^-k', g3 is not None and gen.scaled_exactly(g3[0], out, 2.0 ** kk) and g3[1] == new_dt * 2.0 ** -kk,
                    {**desc, 'k': kk})
     # Fourier variant on long noise records
-    for n, k in ([(rng.choice([5000, 8192]), 2), (rng.choice([9973, 20000, 30011]), 3)] if quick else [(5000, 2), (8192, 2), (9973, 3), (20000, 3), (30011, 2), (65536, 2), (60000, 5)]):
+    for n, k in ([(rng.choice([5000, 8192]), 2), (rng.choice([9973, 20000, 30011]), 3)] if quick else [(5000, 2), (8192, 2), (9973, 3), (20000, 3), (30011, 2), (65536, 2), (60000, 5)]) + \
+            [(m, 2) for m in gen.hint_sizes(ctx, lo=401, hi=100000, cap=3)]:
         seed = rng.randrange(2 ** 31)
         a = np.random.default_rng(seed).standard_normal(n)
         dt = rng.choice([0.01, 0.02, 0.5])
